@@ -65,4 +65,16 @@ theorem reopen_id_partial {M : Type} {ops : MapOps M} {ok : M → Prop} (L : Map
    Gsu.Props.C15.chain_roundtrip L hs ms ids hms rs hrs,
    Gsu.Props.C15.chain_roundtrip L hi mi idi hmi ri hri⟩
 
+/-- the same for the trie the code uses (C15 `hamt_map`): no map hypothesis left -/
+theorem reopen_id_trie_partial (hf : Nat → Nat)
+    {cs ci : Chain T} (hs : Gsu.Props.C15.Reach (trieOps hf) cs) (hi : Gsu.Props.C15.Reach (trieOps hf) ci)
+    (ms mi ids idi : Nat) (hms : ms ≤ cs.chunks.length) (hmi : mi ≤ ci.chunks.length)
+    (rs ri : Chain T)
+    (hrs : readChain (trieOps hf) (writeChainWith (trieOps hf) cs ms ids).2.chunks = some rs)
+    (hri : readChain (trieOps hf) (writeChainWith (trieOps hf) ci mi idi).2.chunks = some ri) :
+    (∀ k, live ((trieOps hf).get rs.ht k) = live ((trieOps hf).get cs.ht k)) ∧
+    (∀ k, live ((trieOps hf).get ri.ht k) = live ((trieOps hf).get ci.ht k)) :=
+  ⟨Gsu.Props.C15.trie_chain_roundtrip hf hs ms ids hms rs hrs,
+   Gsu.Props.C15.trie_chain_roundtrip hf hi mi idi hmi ri hri⟩
+
 end Gsu.Props.C04
